@@ -5,6 +5,7 @@ import Driver.Sexp
 import Gvlean.Generated.Helpers
 import Gvlean.Gen.Exec
 import Gvlean.Gen.Migrate
+import Gvlean.Generated.MwFacts
 
 open Go Driver
 
@@ -58,6 +59,22 @@ def stepModel (line : String) : String :=
       | some src =>
         let (o, n) := Mig.migrate src.toList
         hexBytes (String.ofList o).toUTF8.toList ++ "\t" ++ toString n
+  | ["mw", variant, dec, kind, hx, ca, de] =>
+    -- one request as observed by the oracle: did a fresh decode succeed; what does validation of the freshly decoded value return
+    match unhex hx with
+    | none => "bad-op"
+    | some mb =>
+      match String.fromUTF8? (ByteArray.mk mb.toArray) with
+      | none => "bad-op"
+      | some msg =>
+        let vres : Mw.VRes := if kind == "ok" then .ok else .err msg (ca == "1") (de == "1")
+        let env : Mw.Env Unit := { zero := (), decode := fun _ => if dec == "1" then some () else none, validate := fun _ _ => vres }
+        let prog := if variant == "c" then Generated.Mw.validateRequestContext else Generated.Mw.validateRequest
+        match Mw.run env prog with
+        | .respond st body => "respond\t" ++ toString st ++ "\t" ++ hexBytes body.toUTF8.toList
+        | .callNext => "next"
+        | .fallOff => "falloff"
+        | .stuck => "stuck"
   | _ => "bad-op"
 
 def main : IO Unit := do
